@@ -142,9 +142,8 @@ class C12:
             "assumptions": [
                 "precondition enforced on the actual volume: fewer than two distinct finite costs -> definitions not "
                 "asserted (counted)",
-                "ambiguity / risk values asserted for min-type measures only (the kernels take the minimum as 'best' "
-                "whatever the measure; the statement does not say which reading applies to similarity measures); "
-                "range, ordering, NaN pattern and frame clauses are asserted for all measures",
+                "for a max-type measure the pixel's best is its largest cost (the normalised curve is mirrored before the "
+                "ambiguity / risk definitions are applied)",
                 "values not asserted when (eta_max/eta_step) is within 1e-3 of an integer (float32 arange yields 70 or "
                 "71 samples depending on the build) or when a cost sits within 1e-5 of a comparison boundary",
                 "NaN costs may or may not count as 'within eta' (bracket between both readings) when normalisation is "
